@@ -174,14 +174,20 @@ def gen_expr(rng, depth, opts=None):
 
     def go(d, nofunc=False):
         k = rng.random()
-        if nofunc and clean and k >= 0.97:
+        if nofunc and k >= 0.97:      # only the top of a tree meant for the expression model (lambdas are outside it)
             k = rng.random() * 0.97
         if d <= 0 or k < 0.18:
             return atom()
+        def operand():
+            # an alias on an operand / bound / callee / named value needs parentheses (repaired by 95d15ad, 2a611aa)
+            x = go(d - 1)
+            if o["rich"] and rng.random() < 0.06 and x[0] != "func":
+                x = ("alias", rng.choice(PLAIN_IDS[:8] + ["a b", "let", "*"]), x)
+            return x
         if k < 0.52:
-            return ("bin", rng.choice(BINOPS), go(d - 1), go(d - 1))
+            return ("bin", rng.choice(BINOPS), operand(), operand())
         if k < 0.62:
-            return ("un", rng.choice(UNOPS), go(d - 1))
+            return ("un", rng.choice(UNOPS), operand())
         if k < 0.74:
             n = rng.randint(1, 3)
             args = []
@@ -192,15 +198,22 @@ def gen_expr(rng, depth, opts=None):
                 args.append((None, a))
             if rng.random() < 0.3:
                 names = rng.sample(["side", "rolling", "rows", "n1"], rng.randint(1, 2 if o["rich"] else 1))
-                args = [(nm, go(d - 1)) for nm in names] + args
-            f = gen_ident(rng, 0.02, 0.0, 0.15, clean=clean) if rng.random() < 0.9 else go(d - 1)
+                args = [(nm, operand()) for nm in names] + args
+            f = gen_ident(rng, 0.02, 0.0, 0.15, clean=clean) if rng.random() < 0.9 else operand()
             return ("call", f, args)
         if k < 0.80:
             c = rng.random()
             lo = go(d - 1) if c < 0.75 else None
-            while clean and lo is not None and (lo[0] == "param" or (lo[0] == "un" and lo[2][0] == "param")):
-                lo = go(d - 1)       # open finding C14-param-range
-            return ("range", lo, go(d - 1) if 0.2 < c else None)
+            if o["rich"] and lo is not None and rng.random() < 0.08:
+                # a parameter (or a sign applied to one) in front of `..` (repaired by commit 1b7b9df)
+                lo = ("param", rng.choice(["1", "a", "_x"])) if rng.random() < 0.5 else ("un", rng.choice(UNOPS), ("param", rng.choice(["1", "a"])))
+            hi = go(d - 1) if 0.2 < c else None
+            if o["rich"] and rng.random() < 0.05:
+                if lo is not None and lo[0] not in ("func",):
+                    lo = ("alias", "lo", lo)
+                elif hi is not None and hi[0] not in ("func",):
+                    hi = ("alias", "hi", hi)
+            return ("range", lo, hi)
         if not o["rich"]:
             return atom()
         if k < 0.85:
@@ -210,14 +223,15 @@ def gen_expr(rng, depth, opts=None):
             for _ in range(rng.randint(0, 3)):
                 a = go(d - 1)
                 if rng.random() < 0.4:
-                    a = ("alias", rng.choice(PLAIN_IDS[:8] + QUOTED_IDS[:3] + ["a$b", "import", "true", "let"] + ([] if clean else ["*"])), a)
+                    a = ("alias", rng.choice(PLAIN_IDS[:8] + QUOTED_IDS[:3] + ["a$b", "import", "true", "let", "*"]), a)
                 items.append(a)
             return ("tuple", items)
         if k < 0.93:
             return ("array", [go(d - 1) for _ in range(rng.randint(0, 3))])
         if k < 0.97:
-            return ("case", [(go(d - 1, True), go(d - 1, True)) for _ in range(rng.randint(1, 3))])
-        return gen_func(rng, d - 1, lambda dd: go(dd, True), clean)
+            # lambdas as case branches and lambda bodies are generated in every mode (repaired by commit 95d15ad)
+            return ("case", [(go(d - 1), go(d - 1)) for _ in range(rng.randint(1, 3))])
+        return gen_func(rng, d - 1, lambda dd: go(dd), clean)
 
     return go(depth, bool(o.get("nofunc_top")))
 
@@ -243,8 +257,9 @@ HOSTILE_TYPES = ["{x = *}", "{a = int, ..float}", "{..my_type}", "{`b c` = int}"
 
 
 def gen_func(rng, d, go, clean=False):
-    params = [(rng.choice(["x", "y", "z", "p_1", "`a b`", "`let`", "`true`"] + ([] if clean else ["`*`"])), rng.choice(TYPES + HOSTILE_TYPES) if rng.random() < 0.3 else None) for _ in range(rng.randint(0, 2))]
-    named = [(rng.choice(["k", "w"]), go(0)) for _ in range(rng.randint(0, 1))]
+    params = [(rng.choice(["x", "y", "z", "p_1", "`a b`", "`let`", "`true`", "`*`"]), rng.choice(TYPES + HOSTILE_TYPES) if rng.random() < 0.3 else None) for _ in range(rng.randint(0, 2))]
+    # default values: atoms, and (since commit 95d15ad repaired them) calls, lambdas and aliased expressions
+    named = [(rng.choice(["k", "w"]), go(rng.choice([0, 0, 1, 1]))) for _ in range(rng.randint(0, 1))]
     if not params and not named:
         params = [("x", None)]
     ret = rng.choice(TYPES) if rng.random() < 0.2 else None
@@ -382,6 +397,12 @@ ADJACENCY = [
     "f -a", "f - a", "f (a) -b", "a -b", "a - b", "a-b", "a ==b", "f ==b", "f (==b)", "f !b", "f (!b)", "f +b", "f (+b)",
     # a binary expression whose left-most operand starts with a sign, as an (unaliased) function argument
     "f ((-a) + b)", "f ((-a) + b) c", "f c ((-a) * b)", "f ((+a) - b)", "f ((==a) && b)", "f x:((-a) + b) c", "f ((-a) + b > 0)", "f (((-a) + b) * c)",
+    # positions repaired by commits 95d15ad / 2a611aa / 1b7b9df: aliased operand, bound, callee, named value; parameter before `..`
+    "a + (x = b)", "(x = a) + b", "(x = a) ** (y = b)", "-(x = a)", "!(x = a)", "(x = a)..b", "a..(x = b)", "(x = a)..", "..(x = a)", "(x = f) a", "(x = f a) b",
+    "f n1:(x = a) b", "f n1:(x = a + b) c", "f (x = a)", "f x = a", "f (x = a) (y = b)", "f (x = a + b) c", "a + (x = b + c)", "a * (x = (b + c))", "(x = -a) + b",
+    "f ((x = a) + b)", "{x = (y = a) + b}", "{(x = a) + b}", "[(x = a) + b]", "case [(x = a) + b => (y = c) * d]", "((x = a))", "(x = (a))", "f ((x = a))",
+    "($a)..b", "($a)..", "(-$a)..b", "(!$x)..", "(+$a)..3", "(==$a)..b", "f ($a)..b", "f (-$a)..b", "f ((-$a)..b)", "a + (($b)..c)", "(x = $a)..b", "(-(x = $a))..b",
+    "($a.b)..c", "a..$b", "($a)..($b)", "$a + 1", "(($a))..b", "(f $a)..b", "[($a)..b, (-$c)..]",
     "f ((-a)..b)", "f ((-a) ?? b) (+c)", "f (!a && b)", "f ((-a) + b | g)", "f {(-a) + b}", "f [(-a) + b]", "f (x = (-a) + b)", "(f ((-a) + b)) + c", "-a + b", "(-a) + b",
 ]
 
@@ -421,3 +442,33 @@ def unicode_name_sources():
         out.append("let %s = func %s k:1 -> %s\nfrom t\nderive {y = f k:2 %s}\n" % (q, q, q, q))
         out.append("module %s {\n  type %s = int\n}\nfrom t\nwindow %s:1 (derive {z = 1})\n" % (q, q, q))
     return out
+
+
+# ------------------------------------------------------------------------------------------- repaired positions
+
+def restricted_position_sources():
+    """every (position, form) pair of the positions repaired by commits 95d15ad / 2a611aa (forms the parser accepts there
+    only in parentheses), the parameter in front of `..` (1b7b9df) and the wildcard as a name (328740d)"""
+    forms = {"lambda": "(func y -> y + 1)", "lambda2": "(func y k:1 -> (func z -> z))", "call": "(g y)", "call2": "(g y z:1)",
+             "alias": "(al = b)", "alias-call": "(al = g y)", "alias-lambda": "(al = func y -> y)", "pipe": "(b | g)", "plain": "b", "neg": "(-b)"}
+    positions = [
+        "let v = case [%s => 1]", "let v = case [c => %s]", "let v = func q -> %s", "let v = func q k:%s -> q", "@%s\nlet v = 1",
+        "let v = a + %s", "let v = %s + a", "let v = -%s", "let v = %s..a", "let v = a..%s", "let v = %s a", "let v = f n1:%s a", "let v = f %s a",
+        "let v = f a %s", "let v = {%s, a}", "let v = [%s]", "let v = (%s | f)", "let v = %s", "from t\nselect %s", "from t\nderive {w = %s}",
+        "let v = a ?? %s", "let v = f (%s + 1)", "let v = f n1:%s", "let v = ((%s))", "let v = s\"{a}\" + %s",
+    ]
+    out = []
+    for pos in positions:
+        for form in forms.values():
+            out.append(pos % form + "\n")
+    out += ["let v = ($a)..b\n", "let v = [(!$x)..]\n", "let v = (-$a)..\n", "let v = f ($a)..b (-$c)..\n", "let v = ($a.b)..c\n",
+            "from t\nselect {`*` = 1}\n", "let f = func `*` -> 1\n", "let `*` = 1\n", "import `*` = a.b\n", "let v = f `*`:1 a\n", "from t\nselect {t.*, x = `*`}\n",
+            "module `*` {\n  let a = 1\n}\n", "type `*` = int\n", "from t\ninto `*`\n", "type t = {`*` = int}\n"]
+    return out
+
+
+def deep_nesting_source(n):
+    e = "a_long_name_for_a_column"
+    for i in range(n):
+        e = "(%s + b_%d) * c_long_name_%d" % (e, i, i)
+    return "from t\nderive {x = %s}\n" % e
